@@ -2,7 +2,11 @@ module vh
 
 go 1.18
 
-require mosn.io/mosn v1.2.0
+require (
+	mosn.io/api v1.6.0
+	mosn.io/mosn v1.2.0
+	mosn.io/pkg v1.6.0
+)
 
 require (
 	github.com/andybalholm/brotli v1.0.4 // indirect
@@ -35,8 +39,6 @@ require (
 	google.golang.org/protobuf v1.33.0 // indirect
 	gopkg.in/natefinch/lumberjack.v2 v2.0.0 // indirect
 	gopkg.in/yaml.v2 v2.4.0 // indirect
-	mosn.io/api v1.6.0 // indirect
-	mosn.io/pkg v1.6.0 // indirect
 	mosn.io/proxy-wasm-go-host v0.2.1-0.20230626122511-25a9e133320e // indirect
 )
 
